@@ -176,21 +176,12 @@ func init() {
 		Props: []string{"C16"},
 		Floor: 3,
 		Run: func(c *Ctx, s *core.Sink) {
-			checkLoop := func(f *ssa.Function, method string, targetOK func(arg ssa.Value, alloc *ssa.Alloc) bool, allocType string, allowAssert bool) (bool, string) {
-				var alloc *ssa.Alloc
-				for _, b := range f.Blocks {
-					for _, ins := range b.Instrs {
-						if a, ok := ins.(*ssa.Alloc); ok && a.Heap && namedOf(a.Type()) == allocType {
-							alloc = a
-						}
-					}
-				}
-				if alloc == nil {
-					return false, "does not allocate a fresh " + allocType
-				}
-				opts := f.Params[len(f.Params)-1]
+			// applyLoop: in f, every element of the slice parameter opts is applied, unconditionally, by `method`; returns the
+			// object the options are applied to
+			applyLoop := func(f *ssa.Function, opts *ssa.Parameter, method string, allowAssert bool) (ssa.Value, *ssaLoop, string) {
 				loops := loopsOf(f)
-				found := false
+				var target ssa.Value
+				var loop *ssaLoop
 				for _, b := range f.Blocks {
 					for _, ins := range b.Instrs {
 						call, ok := ins.(*ssa.Call)
@@ -208,18 +199,18 @@ func init() {
 						}
 						ld, ok := recv.(*ssa.UnOp)
 						if !ok {
-							return false, "the option applied is not an element of the argument list"
+							return nil, nil, "the option applied is not an element of the argument list"
 						}
 						ia, ok := ld.X.(*ssa.IndexAddr)
 						if !ok || ia.X != ssa.Value(opts) {
-							return false, "the option applied is not an element of the argument list"
+							return nil, nil, "the option applied is not an element of the argument list"
 						}
-						if len(call.Common().Args) != 1 || !targetOK(call.Common().Args[0], alloc) {
-							return false, "options are not applied to the object that is returned"
+						if len(call.Common().Args) != 1 {
+							return nil, nil, "options are not applied to one object"
 						}
 						ls := inLoops(loops, b)
 						if len(ls) != 1 {
-							return false, "the application is not inside one loop over the options"
+							return nil, nil, "the application is not inside one loop over the options"
 						}
 						// the loop ranges over all of opts: index phi from 0 (or -1) step 1, bound len(opts)
 						hdrOK := false
@@ -231,7 +222,7 @@ func init() {
 							}
 						}
 						if !hdrOK {
-							return false, "the loop is not bounded by len(options)"
+							return nil, nil, "the loop is not bounded by len(options)"
 						}
 						// no condition other than the loop test (and the type assertion) guards the application
 						ff := Facts(c, f)
@@ -246,27 +237,121 @@ func init() {
 									}
 								}
 							}
-							return false, "an option is applied only under an extra condition: " + fa.Cond.String()
+							return nil, nil, "an option is applied only under an extra condition: " + fa.Cond.String()
 						}
-						found = true
+						target, loop = call.Common().Args[0], ls[0]
 					}
 				}
-				if !found {
-					return false, "no call of " + method + " on the options"
+				if target == nil {
+					return nil, nil, "no call of " + method + " on the options"
 				}
-				// returns the allocated object
+				return target, loop, ""
+			}
+			returned := func(f *ssa.Function, alloc ssa.Value) bool {
+				n := 0
 				for _, b := range f.Blocks {
 					if r, ok := b.Instrs[len(b.Instrs)-1].(*ssa.Return); ok {
+						n++
 						v := r.Results[0]
 						if mi, ok := v.(*ssa.MakeInterface); ok {
 							v = mi.X
 						}
-						if v != ssa.Value(alloc) {
-							return false, "does not return the object the options were applied to"
+						if v != alloc {
+							return false
 						}
 					}
 				}
-				return true, ""
+				return n > 0
+			}
+			// checkLoop: the loop is in f itself, or in a module helper f hands its whole option list to, whose result becomes
+			// (the options of) the object f returns
+			checkLoop := func(f *ssa.Function, method string, targetOK func(arg ssa.Value, alloc *ssa.Alloc) bool, allocType string, allowAssert bool) (bool, string) {
+				var alloc *ssa.Alloc
+				for _, b := range f.Blocks {
+					for _, ins := range b.Instrs {
+						if a, ok := ins.(*ssa.Alloc); ok && a.Heap && namedOf(a.Type()) == allocType {
+							alloc = a
+						}
+					}
+				}
+				if alloc == nil {
+					return false, "does not allocate a fresh " + allocType
+				}
+				if !returned(f, alloc) {
+					return false, "does not return the object the options were applied to"
+				}
+				opts := f.Params[len(f.Params)-1]
+				target, _, why := applyLoop(f, opts, method, allowAssert)
+				if target != nil {
+					if !targetOK(target, alloc) {
+						return false, "options are not applied to the object that is returned"
+					}
+					return true, ""
+				}
+				if !strings.HasPrefix(why, "no call of") {
+					return false, why
+				}
+				// a helper receives the whole list
+				for _, b := range f.Blocks {
+					for _, ins := range b.Instrs {
+						call, ok := ins.(*ssa.Call)
+						if !ok {
+							continue
+						}
+						h := call.Common().StaticCallee()
+						if h == nil || !c.P.InModule(h) || len(h.Blocks) == 0 {
+							continue
+						}
+						var hp *ssa.Parameter
+						for i, a := range call.Common().Args {
+							if a == ssa.Value(opts) && i < len(h.Params) {
+								hp = h.Params[i]
+							}
+						}
+						if hp == nil {
+							continue
+						}
+						ht, hloop, hwhy := applyLoop(h, hp, method, allowAssert)
+						if ht == nil {
+							if strings.HasPrefix(hwhy, "no call of") {
+								continue
+							}
+							return false, hwhy
+						}
+						// the helper applies to a local object and returns it (by value or by pointer) after the loop
+						hal, isAlloc := ht.(*ssa.Alloc)
+						if !isAlloc {
+							return false, "the helper " + h.Name() + " applies the options to something it did not create"
+						}
+						for _, hb := range h.Blocks {
+							r, ok := hb.Instrs[len(hb.Instrs)-1].(*ssa.Return)
+							if !ok {
+								continue
+							}
+							if len(r.Results) != 1 {
+								return false, "the helper " + h.Name() + " does not return the options alone"
+							}
+							v := r.Results[0]
+							if ld, ok := v.(*ssa.UnOp); ok && ld.Op == token.MUL {
+								v = ld.X
+							}
+							if v != ssa.Value(hal) {
+								return false, "the helper " + h.Name() + " does not return the object it applied the options to"
+							}
+							if hloop.Blocks[hb] || !hloop.Header.Dominates(hb) {
+								return false, "the helper " + h.Name() + " can return before every option is applied"
+							}
+						}
+						// and f puts the helper's result where targetOK says options live
+						for _, r := range *call.Referrers() {
+							if st, ok := r.(*ssa.Store); ok && st.Val == ssa.Value(call) && targetOK(st.Addr, alloc) {
+								return true, ""
+							}
+						}
+						return false, "the result of " + h.Name() + " does not become the options of the object that is returned"
+					}
+				}
+				return false, why
 			}
 			if f := c.P.Func("url", "", "NewParser"); f == nil {
 				s.Unknown("apply/url.NewParser", "-", "not found")
@@ -276,20 +361,9 @@ func init() {
 					return ok && fa.X == ssa.Value(alloc) && fieldElem(fa.X.Type(), fa.Field) == "parser:opts"
 				}, "parser", false)
 				s.Check(ok, "apply/url.NewParser", c.P.Pos(f.Pos()), "every option is applied to the fresh parser's options; the parser is returned", why)
-				// the fresh options start from defaultParserOptions()
-				def := false
-				for _, b := range f.Blocks {
-					for _, ins := range b.Instrs {
-						if st, ok := ins.(*ssa.Store); ok {
-							if _, ok := fieldAddrOf(st.Addr, "parser:opts"); ok {
-								if call, ok := st.Val.(*ssa.Call); ok && call.Common().StaticCallee() != nil && call.Common().StaticCallee().Name() == "defaultParserOptions" {
-									def = true
-								}
-							}
-						}
-					}
-				}
-				s.Check(def, "apply/url.NewParser/defaults", c.P.Pos(f.Pos()), "options start from defaultParserOptions()", "options do not start from defaultParserOptions()")
+				// the fresh options start from the defaults (what they are is TAB-defaults' business)
+				vals, _, _, derr := defaultOptions(c)
+				s.Check(derr == nil && len(vals) > 0, "apply/url.NewParser/defaults", c.P.Pos(f.Pos()), "the options start from package-level defaults", "options do not start from package-level defaults")
 			}
 			if f := c.P.Func("canonicalizer", "", "New"); f == nil {
 				s.Unknown("apply/canonicalizer.New", "-", "not found")
